@@ -394,8 +394,21 @@ var lengthBodies = [][]byte{[]byte("x"), []byte("endstream"), []byte("a\nendstre
 // statement's own exclusion ("wrong lengths that do not happen to point just before another endstream").
 var lengthDefects = []string{"correct", "absent", "minus1", "plus7", "huge", "indirect-correct", "indirect-missing", "indirect-dict", "indirect-cycle", "real", "negative"}
 
+// bodyOf returns the stream body of a length case: an index into
+// lengthBodies, or (from 100 on) a body of body-100 bytes.
+func bodyOf(body int) []byte {
+	if body < 100 {
+		return lengthBodies[body]
+	}
+	b := make([]byte, body-100)
+	for i := range b {
+		b[i] = "0123456789abcdef"[i%16]
+	}
+	return b
+}
+
 func lengthFile(body int, defect string, k pdffile.Knobs) ([]byte, []byte) {
-	data := lengthBodies[body]
+	data := bodyOf(body)
 	o := pdffile.ObjDef{Num: 4, Val: pdfsyn.DictV("S", pdfsyn.NameV("len")), Stream: data}
 	extra := []pdffile.ObjDef{}
 	iv := func(v pdfsyn.Value) *pdfsyn.Value { return &v }
@@ -552,7 +565,7 @@ func Run(tier string) int {
 				if k.ObjStm {
 					continue
 				}
-				if d == "indirect-missing" && bytes.HasPrefix(lengthBodies[b], []byte("endstream")) {
+				if d == "indirect-missing" && bytes.HasPrefix(bodyOf(b), []byte("endstream")) {
 					// a reference to a missing object is null, which reads as length 0; for this body
 					// length 0 points exactly at an "endstream" keyword: the statement's own exclusion
 					continue
@@ -562,6 +575,18 @@ func Run(tier string) int {
 			}
 		}
 	}
+	// every body length up to 2200: the EOL+endstream that ends the data crosses
+	// every position of the scanner's buffer
+	sweep := []string{"absent", "minus1", "plus7", "indirect-missing"}
+	maxLen := ev.Pick(r, 2200, 4400)
+	r.Par(maxLen+1, func(L int) {
+		for _, d := range sweep {
+			rn.length(100+L, d, pdffile.Knobs{})
+			rn.length(100+L, d, pdffile.Knobs{EOL: 1})
+		}
+		r.DistinctS(fmt.Sprintf("lensweep|%d", L))
+	})
+	r.Dim("length_sweep", fmt.Sprintf("body lengths 0..%d x %v x EOL {LF, CRLF}", maxLen, sweep))
 	r.Dim("length_clause", fmt.Sprintf("%d bodies x %d length defects x %d renderings", len(lengthBodies), len(lengthDefects), len(lk)-1))
 	return r.Finish()
 }
